@@ -162,3 +162,58 @@ Example C17_split_example :
   split_args 5%positive [ESym 9%positive; EAcc 8%positive [ESym 5%positive]; EAcc 8%positive [ESym 6%positive]]
   = Some ([EAcc 8%positive [ESym 5%positive]], [ESym 9%positive; EAcc 8%positive [ESym 6%positive]]).
 Proof. reflexivity. Qed.
+
+(* Optimiser half, semantic part, for ALL code lists and ALL inputs (Footprint.v, OptSound.v).
+   [lref inp l1 l2]: from extensionally equal stores, whenever l1 runs (LN.exec) l2 runs too and the final
+   stores are extensionally equal.  [indep] and [opt_ok] are decidable and evaluated by vm_compute on every
+   captured optimize() call. *)
+From FFCX Require Import Footprint OptSound.
+
+Theorem C17_statements_that_do_not_interfere_commute :
+  forall (T : Type) (of_Z : Z -> T) (of_lit : Z -> Z -> T) (of_clit : Z -> Z -> Z -> Z -> T)
+         (tadd tsub tmul tdiv : T -> T -> T) (tneg : T -> T) (teqb tltb tleb : T -> T -> bool)
+         (tfn : string -> list T -> T) inp s1 s2,
+    indep s1 s2 = true ->
+    forall st st1 st12,
+      @exec T of_Z of_lit of_clit tadd tsub tmul tdiv tneg teqb tltb tleb tfn inp s1 st = Some st1 ->
+      @exec T of_Z of_lit of_clit tadd tsub tmul tdiv tneg teqb tltb tleb tfn inp s2 st1 = Some st12 ->
+      exists st2 st21,
+        @exec T of_Z of_lit of_clit tadd tsub tmul tdiv tneg teqb tltb tleb tfn inp s2 st = Some st2 /\
+        @exec T of_Z of_lit of_clit tadd tsub tmul tdiv tneg teqb tltb tleb tfn inp s1 st2 = Some st21 /\
+        sequiv T st12 st21.
+Proof. exact commute. Qed.
+Print Assumptions C17_statements_that_do_not_interfere_commute.
+
+Theorem C17_loops_over_one_range_fuse :
+  forall (T : Type) (of_Z : Z -> T) (of_lit : Z -> Z -> T) (of_clit : Z -> Z -> Z -> Z -> T)
+         (tadd tsub tmul tdiv : T -> T -> T) (tneg : T -> T) (teqb tltb tleb : T -> T -> bool)
+         (tfn : string -> list T -> T) inp i b e Bs,
+    Bs <> nil -> Forall (fun X => declared_list X = nil) Bs -> loops_indep i Bs = true ->
+    lref T of_Z of_lit of_clit tadd tsub tmul tdiv tneg teqb tltb tleb tfn inp
+         (map (fun X => SFor i b e X) Bs) (cons (SFor i b e (map wrap_body Bs)) nil).
+Proof. intros. eapply lref_fuse_loops; eauto. Qed.
+Print Assumptions C17_loops_over_one_range_fuse.
+
+Theorem C17_section_and_loop_fusion_preserve_the_kernel_body :
+  forall (T : Type) (of_Z : Z -> T) (of_lit : Z -> Z -> T) (of_clit : Z -> Z -> Z -> Z -> T)
+         (tadd tsub tmul tdiv : T -> T -> T) (tneg : T -> T) (teqb tltb tleb : T -> T -> bool)
+         (tfn : string -> list T -> T) inp temps code,
+    optimize temps code = opt_map (licm_item temps) (opt_nolicm code)
+    /\ (opt_ok code = true ->
+        lref T of_Z of_lit of_clit tadd tsub tmul tdiv tneg teqb tltb tleb tfn inp
+             (desugar code) (desugar (opt_nolicm code))).
+Proof.
+  intros. split; [apply (optimize_decomposes T of_Z of_lit of_clit tadd tsub tmul tdiv tneg teqb tltb tleb tfn)
+                 | apply opt_nolicm_sound].
+Qed.
+Print Assumptions C17_section_and_loop_fusion_preserve_the_kernel_body.
+
+(* non-vacuity: two coefficient sections sharing the loop index satisfy the side condition, and the fused
+   code is what optimizer.py produces for them (shape pinned by the correspondence, not by this example) *)
+Example C17_opt_ok_example :
+  let sec (x : positive) := ISec (mkSec "Coefficient"
+      [SFor 20%positive 0 3 [SAssignAdd (LVar x) (EBin OMul (EAcc 2%positive [ESym 20%positive]) (EAcc 30%positive [ESym 20%positive]))]]
+      [SVarDecl x DScalar (ELitI 0)] [AFuse]) in
+  opt_ok [sec 40%positive; IStmt (SVarDecl 50%positive DScalar (ELitI 1)); sec 41%positive] = true
+  /\ List.length (opt_nolicm [sec 40%positive; IStmt (SVarDecl 50%positive DScalar (ELitI 1)); sec 41%positive]) = 2%nat.
+Proof. vm_compute. split; reflexivity. Qed.
